@@ -81,7 +81,7 @@ class StackEval:
                     if a[0] == "tuple":
                         return ("par", a[1])
                 return ("unk", unparse(e))
-            return ("inst", c, e)
+            return ("inst", c, e, [self.ev(a, env, depth) for a in e.args])
         if isinstance(f, ast.Attribute):
             owner = self.repo.resolve_expr_class(self.mod, f.value)
             if owner is not None and depth < 6:
